@@ -279,9 +279,14 @@ def o175(ctx):
     if len(ifs) != 1:
         raise Unsupported("section filter of Mdoc.write not found", fn)
     test = ifs[0].test
+    row_names = {n.value.id for n in ast.walk(test) if isinstance(n, ast.Subscript) and isinstance(n.value, ast.Name)
+                 and isinstance(n.slice, ast.Constant) and n.slice.value == "Removed"}
+    other = {n.id for n in ast.walk(test) if isinstance(n, ast.Name)} - row_names
+    if len(row_names) != 1 or other != {"removed"}:
+        raise Unsupported("section filter of Mdoc.write: expected a test over <row>['Removed'] and the option `removed`", test)
     for removed in (True, False):
         for flagged in (True, False):
-            env = {"removed": removed, "row": {"Removed": flagged}}
+            env = {"removed": removed, next(iter(row_names)): {"Removed": flagged}}
             got = bool(eval(compile(ast.Expression(test), "<f>", "eval"), {"__builtins__": {}}, env))
             want = removed or not flagged
             ctx.count(1, {"removed option": removed, "image flagged": flagged, "written": got})
